@@ -134,6 +134,8 @@ func Families() []*spec.Grammar {
 		"S: o1 A c1 | o2 B c2 | o3 C c3; A: a B N; B: b C N; C: c A | e; N: | n",
 		// D12 witness: follow sets of a strongly connected component shared one slice and were appended to in place
 		"A: ; L: A A | g | A L L f z d A A L e L d | q e z q g g d c c f f; A: L",
+		// D13 witness: state 7's row is displaced to offset -4, its goto on A is the column default
+		"%nonassoc a; A: C E a | %prec a | a C %prec a; B: A A a a %prec a; C: A a a a | C; D: ; E: | B a a | C D B E %prec a; A: B; B: A",
 		// cyclic
 		"S: A; A: B; B: A | x",
 		"U: U | u",
@@ -329,6 +331,12 @@ func OpTable(r *rand.Rand) *spec.Grammar {
 			oi++
 			pl.Toks = append(pl.Toks, ti)
 			g.Rules = append(g.Rules, spec.Rule{Lhs: 0, Rhs: []spec.Sym{E, {T: true, I: ti}, E}, Prec: -1})
+		}
+		if len(pl.Toks) == 0 {
+			// operator characters exhausted: the level gets a pseudo token of its own
+			ti := len(g.Tokens)
+			g.Tokens = append(g.Tokens, spec.Token{Name: fmt.Sprintf("P%d", l), Decl: "prec"})
+			pl.Toks = append(pl.Toks, ti)
 		}
 		g.Precs = append(g.Precs, pl)
 		levelTok = append(levelTok, pl.Toks)
@@ -1050,4 +1058,63 @@ func LongRules(r *rand.Rand) *spec.Grammar {
 			return g
 		}
 	}
+}
+
+// ManyTokens produces keyword-heavy grammars with 64-100 terminals (symbol
+// ids beyond 64): many statement forms "keyword body terminator" sharing a few
+// body nonterminals, so that reductions are looked back to from many contexts
+// and their lookahead sets contain terminals with high ids.
+func ManyTokens(r *rand.Rand) *spec.Grammar {
+	g := &spec.Grammar{}
+	n := 64 + r.Intn(37)
+	for i := 0; i < n; i++ {
+		g.Tokens = append(g.Tokens, spec.Token{Name: fmt.Sprintf("T%02d", i), Decl: "token", Tag: "s"})
+	}
+	g.NTs = []spec.NT{{Name: "S", Tag: "s"}, {Name: "A", Tag: "s"}, {Name: "B", Tag: "s"}}
+	T := func(i int) spec.Sym { return spec.Sym{T: true, I: i} }
+	bodyTok := r.Intn(8)
+	g.Rules = append(g.Rules, spec.Rule{Lhs: 1, Rhs: []spec.Sym{T(bodyTok)}, Prec: -1})
+	g.Rules = append(g.Rules, spec.Rule{Lhs: 2, Rhs: []spec.Sym{{I: 1}}, Prec: -1})
+	if r.Intn(2) == 0 {
+		g.Rules = append(g.Rules, spec.Rule{Lhs: 2, Rhs: []spec.Sym{{I: 2}, T(8 + r.Intn(4)), {I: 1}}, Prec: -1})
+	}
+	// statement forms: keyword (low or high id) + body + terminator (often a high id)
+	nforms := 6 + r.Intn(20)
+	used := map[int]bool{bodyTok: true}
+	pick := func(lo, hi int) int {
+		for {
+			t := lo + r.Intn(hi-lo)
+			if !used[t] {
+				used[t] = true
+				return t
+			}
+		}
+	}
+	for f := 0; f < nforms; f++ {
+		kw := pick(12, n)
+		var end int
+		if r.Intn(3) == 0 {
+			end = 12 + r.Intn(n-12) // terminators may repeat across forms
+		} else {
+			end = n - 1 - r.Intn(8)
+		}
+		body := spec.Sym{I: 1 + r.Intn(2)}
+		switch r.Intn(3) {
+		case 0:
+			g.Rules = append(g.Rules, spec.Rule{Lhs: 0, Rhs: []spec.Sym{T(kw), body, T(end)}, Prec: -1})
+		case 1:
+			g.Rules = append(g.Rules, spec.Rule{Lhs: 0, Rhs: []spec.Sym{body, T(kw), T(end)}, Prec: -1})
+		default:
+			g.Rules = append(g.Rules, spec.Rule{Lhs: 0, Rhs: []spec.Sym{T(kw), T(pick(12, n)), body, T(end)}, Prec: -1})
+		}
+	}
+	// the remaining tokens appear in one catch-all rule so that every token is used
+	for t := 0; t < n; t++ {
+		if !used[t] && r.Intn(3) == 0 {
+			used[t] = true
+			g.Rules = append(g.Rules, spec.Rule{Lhs: 0, Rhs: []spec.Sym{T(t), T(n - 1 - r.Intn(4))}, Prec: -1})
+		}
+	}
+	g.DefaultActs()
+	return g
 }
